@@ -41,6 +41,11 @@ func randRunFan(r *rand.Rand, id string, allowCmd bool) RunFan {
 	rf.Pwm0 = []int{r.Intn(256), r.Intn(256), 255, 0}[r.Intn(4)] // incl. a fan that was at full speed / stopped
 	rf.Mode0 = []int{0, 1, 2, 2, 3, 5}[r.Intn(6)]
 	rf.Rest = randRest(r)
+	if rf.Spec.HasMode && rf.Mode0 != 1 && rf.Rest[1] == "ok" && r.Intn(2) == 0 {
+		// the device would refuse the full-speed write as well - but it accepts the hand-back by mode, so the property can
+		// be met (it is excluded as vacuous only where nothing at all can be done for the fan)
+		rf.Rest[2] = []string{"fail", "ign"}[r.Intn(2)]
+	}
 	if rf.Spec.Kind == "hwmon" && r.Intn(2) == 0 {
 		// a fan whose maximum is below 255 (configured): "full speed" is still PWM 255
 		rf.Spec.CfgMax = ip(120 + r.Intn(135))
